@@ -184,3 +184,225 @@ package builder
 //@   loop 1 modifies _this.builderStack, _this.CurrentBuilder
 //@   loop 1 invariant depth >= 2
 //@   loop 1 decreases len(_this.builderStack)
+
+// ---- GENERATED by /verif/scripts/gen_builder_arrays.py: typed array builders ----
+//@ ghost lastValueOf any
+//@ extern reflect::ValueOf
+//@   modifies lastValueOf, alloc
+//@   ensures lastValueOf == i
+//@ extern reflect::(Value).Set
+//@   may_panic
+//@ func PanicBadEvent
+//@   trusted
+//@   noreturn
+
+//@ func (*uint16SliceBuilder).BuildFromArray
+//@   requires len(value) <= 0x1000000000
+//@   modifies lastValueOf, alloc, memall(uint16)
+//@   may_panic
+//@   ensures arrayType == events.ArrayTypeUint16 && typeIs(lastValueOf, "[]uint16") && len(payload(lastValueOf, "[]uint16")) == len(value) >> 1
+//@   ensures forall k int :: 0 <= k && k < len(value) >> 1 ==> uint64(payload(lastValueOf, "[]uint16")[k]) & 0xffff == uint64(value[2*k]) | uint64(value[2*k+1]) << 8
+//@   loop 0 modifies mem(slice)
+//@   loop 0 invariant 0 <= i && i <= elemCount && elemCount == len(value) >> 1 && len(slice) == elemCount && slice.off == 0 && fresh(slice)
+//@   loop 0 invariant forall k int :: 0 <= k && k < i ==> uint64(slice[k]) & 0xffff == uint64(value[2*k]) | uint64(value[2*k+1]) << 8
+//@   loop 0 decreases elemCount - i
+
+//@ func (*uint32SliceBuilder).BuildFromArray
+//@   requires len(value) <= 0x1000000000
+//@   modifies lastValueOf, alloc, memall(uint32)
+//@   may_panic
+//@   ensures arrayType == events.ArrayTypeUint32 && typeIs(lastValueOf, "[]uint32") && len(payload(lastValueOf, "[]uint32")) == len(value) >> 2
+//@   ensures forall k int :: 0 <= k && k < len(value) >> 2 ==> uint64(payload(lastValueOf, "[]uint32")[k]) & 0xffffffff == uint64(value[4*k]) | uint64(value[4*k+1]) << 8 | uint64(value[4*k+2]) << 16 | uint64(value[4*k+3]) << 24
+//@   loop 0 modifies mem(slice)
+//@   loop 0 invariant 0 <= i && i <= elemCount && elemCount == len(value) >> 2 && len(slice) == elemCount && slice.off == 0 && fresh(slice)
+//@   loop 0 invariant forall k int :: 0 <= k && k < i ==> uint64(slice[k]) & 0xffffffff == uint64(value[4*k]) | uint64(value[4*k+1]) << 8 | uint64(value[4*k+2]) << 16 | uint64(value[4*k+3]) << 24
+//@   loop 0 decreases elemCount - i
+
+//@ func (*uint64SliceBuilder).BuildFromArray
+//@   requires len(value) <= 0x1000000000
+//@   modifies lastValueOf, alloc, memall(uint64)
+//@   may_panic
+//@   ensures arrayType == events.ArrayTypeUint64 && typeIs(lastValueOf, "[]uint64") && len(payload(lastValueOf, "[]uint64")) == len(value) >> 3
+//@   ensures forall k int :: 0 <= k && k < len(value) >> 3 ==> uint64(payload(lastValueOf, "[]uint64")[k]) == uint64(value[8*k]) | uint64(value[8*k+1]) << 8 | uint64(value[8*k+2]) << 16 | uint64(value[8*k+3]) << 24 | uint64(value[8*k+4]) << 32 | uint64(value[8*k+5]) << 40 | uint64(value[8*k+6]) << 48 | uint64(value[8*k+7]) << 56
+//@   loop 0 modifies mem(slice)
+//@   loop 0 invariant 0 <= i && i <= elemCount && elemCount == len(value) >> 3 && len(slice) == elemCount && slice.off == 0 && fresh(slice)
+//@   loop 0 invariant forall k int :: 0 <= k && k < i ==> uint64(slice[k]) == uint64(value[8*k]) | uint64(value[8*k+1]) << 8 | uint64(value[8*k+2]) << 16 | uint64(value[8*k+3]) << 24 | uint64(value[8*k+4]) << 32 | uint64(value[8*k+5]) << 40 | uint64(value[8*k+6]) << 48 | uint64(value[8*k+7]) << 56
+//@   loop 0 decreases elemCount - i
+
+//@ func (*int8SliceBuilder).BuildFromArray
+//@   requires len(value) <= 0x1000000000
+//@   modifies lastValueOf, alloc, memall(int8)
+//@   may_panic
+//@   ensures arrayType == events.ArrayTypeInt8 && typeIs(lastValueOf, "[]int8") && len(payload(lastValueOf, "[]int8")) == len(value)
+//@   ensures forall k int :: 0 <= k && k < len(value) ==> uint64(payload(lastValueOf, "[]int8")[k]) & 0xff == uint64(value[1*k])
+//@   loop 0 modifies mem(slice)
+//@   loop 0 invariant 0 <= i && i <= elemCount && elemCount == len(value) && len(slice) == elemCount && slice.off == 0 && fresh(slice)
+//@   loop 0 invariant forall k int :: 0 <= k && k < i ==> uint64(slice[k]) & 0xff == uint64(value[1*k])
+//@   loop 0 decreases elemCount - i
+
+//@ func (*int16SliceBuilder).BuildFromArray
+//@   requires len(value) <= 0x1000000000
+//@   modifies lastValueOf, alloc, memall(int16)
+//@   may_panic
+//@   ensures arrayType == events.ArrayTypeInt16 && typeIs(lastValueOf, "[]int16") && len(payload(lastValueOf, "[]int16")) == len(value) >> 1
+//@   ensures forall k int :: 0 <= k && k < len(value) >> 1 ==> uint64(payload(lastValueOf, "[]int16")[k]) & 0xffff == uint64(value[2*k]) | uint64(value[2*k+1]) << 8
+//@   loop 0 modifies mem(slice)
+//@   loop 0 invariant 0 <= i && i <= elemCount && elemCount == len(value) >> 1 && len(slice) == elemCount && slice.off == 0 && fresh(slice)
+//@   loop 0 invariant forall k int :: 0 <= k && k < i ==> uint64(slice[k]) & 0xffff == uint64(value[2*k]) | uint64(value[2*k+1]) << 8
+//@   loop 0 decreases elemCount - i
+
+//@ func (*int32SliceBuilder).BuildFromArray
+//@   requires len(value) <= 0x1000000000
+//@   modifies lastValueOf, alloc, memall(int32)
+//@   may_panic
+//@   ensures arrayType == events.ArrayTypeInt32 && typeIs(lastValueOf, "[]int32") && len(payload(lastValueOf, "[]int32")) == len(value) >> 2
+//@   ensures forall k int :: 0 <= k && k < len(value) >> 2 ==> uint64(payload(lastValueOf, "[]int32")[k]) & 0xffffffff == uint64(value[4*k]) | uint64(value[4*k+1]) << 8 | uint64(value[4*k+2]) << 16 | uint64(value[4*k+3]) << 24
+//@   loop 0 modifies mem(slice)
+//@   loop 0 invariant 0 <= i && i <= elemCount && elemCount == len(value) >> 2 && len(slice) == elemCount && slice.off == 0 && fresh(slice)
+//@   loop 0 invariant forall k int :: 0 <= k && k < i ==> uint64(slice[k]) & 0xffffffff == uint64(value[4*k]) | uint64(value[4*k+1]) << 8 | uint64(value[4*k+2]) << 16 | uint64(value[4*k+3]) << 24
+//@   loop 0 decreases elemCount - i
+
+//@ func (*int64SliceBuilder).BuildFromArray
+//@   requires len(value) <= 0x1000000000
+//@   modifies lastValueOf, alloc, memall(int64)
+//@   may_panic
+//@   ensures arrayType == events.ArrayTypeInt64 && typeIs(lastValueOf, "[]int64") && len(payload(lastValueOf, "[]int64")) == len(value) >> 3
+//@   ensures forall k int :: 0 <= k && k < len(value) >> 3 ==> uint64(payload(lastValueOf, "[]int64")[k]) == uint64(value[8*k]) | uint64(value[8*k+1]) << 8 | uint64(value[8*k+2]) << 16 | uint64(value[8*k+3]) << 24 | uint64(value[8*k+4]) << 32 | uint64(value[8*k+5]) << 40 | uint64(value[8*k+6]) << 48 | uint64(value[8*k+7]) << 56
+//@   loop 0 modifies mem(slice)
+//@   loop 0 invariant 0 <= i && i <= elemCount && elemCount == len(value) >> 3 && len(slice) == elemCount && slice.off == 0 && fresh(slice)
+//@   loop 0 invariant forall k int :: 0 <= k && k < i ==> uint64(slice[k]) == uint64(value[8*k]) | uint64(value[8*k+1]) << 8 | uint64(value[8*k+2]) << 16 | uint64(value[8*k+3]) << 24 | uint64(value[8*k+4]) << 32 | uint64(value[8*k+5]) << 40 | uint64(value[8*k+6]) << 48 | uint64(value[8*k+7]) << 56
+//@   loop 0 decreases elemCount - i
+
+//@ func (*float32SliceBuilder).BuildFromArray
+//@   requires len(value) <= 0x1000000000
+//@   modifies lastValueOf, alloc, memall(float32)
+//@   may_panic
+//@   ensures arrayType == events.ArrayTypeFloat32 && typeIs(lastValueOf, "[]float32") && len(payload(lastValueOf, "[]float32")) == len(value) >> 2
+//@   ensures forall k int :: 0 <= k && k < len(value) >> 2 ==> uint64(bits(payload(lastValueOf, "[]float32")[k])) == uint64(value[4*k]) | uint64(value[4*k+1]) << 8 | uint64(value[4*k+2]) << 16 | uint64(value[4*k+3]) << 24
+//@   loop 0 modifies mem(slice)
+//@   loop 0 invariant 0 <= i && i <= elemCount && elemCount == len(value) >> 2 && len(slice) == elemCount && slice.off == 0 && fresh(slice)
+//@   loop 0 invariant forall k int :: 0 <= k && k < i ==> uint64(bits(slice[k])) == uint64(value[4*k]) | uint64(value[4*k+1]) << 8 | uint64(value[4*k+2]) << 16 | uint64(value[4*k+3]) << 24
+//@   loop 0 decreases elemCount - i
+
+//@ func (*float64SliceBuilder).BuildFromArray
+//@   requires len(value) <= 0x1000000000
+//@   modifies lastValueOf, alloc, memall(float64)
+//@   may_panic
+//@   ensures arrayType == events.ArrayTypeFloat64 && typeIs(lastValueOf, "[]float64") && len(payload(lastValueOf, "[]float64")) == len(value) >> 3
+//@   ensures forall k int :: 0 <= k && k < len(value) >> 3 ==> uint64(bits(payload(lastValueOf, "[]float64")[k])) == uint64(value[8*k]) | uint64(value[8*k+1]) << 8 | uint64(value[8*k+2]) << 16 | uint64(value[8*k+3]) << 24 | uint64(value[8*k+4]) << 32 | uint64(value[8*k+5]) << 40 | uint64(value[8*k+6]) << 48 | uint64(value[8*k+7]) << 56
+//@   loop 0 modifies mem(slice)
+//@   loop 0 invariant 0 <= i && i <= elemCount && elemCount == len(value) >> 3 && len(slice) == elemCount && slice.off == 0 && fresh(slice)
+//@   loop 0 invariant forall k int :: 0 <= k && k < i ==> uint64(bits(slice[k])) == uint64(value[8*k]) | uint64(value[8*k+1]) << 8 | uint64(value[8*k+2]) << 16 | uint64(value[8*k+3]) << 24 | uint64(value[8*k+4]) << 32 | uint64(value[8*k+5]) << 40 | uint64(value[8*k+6]) << 48 | uint64(value[8*k+7]) << 56
+//@   loop 0 decreases elemCount - i
+
+//@ func (*uint8ArrayBuilder).BuildFromArray
+//@   requires len(value) <= 0x1000000000 && rvLen[uint64(dst.ptr)] >= len(value)
+//@   modifies rvUint, alloc
+//@   may_panic
+//@   ensures arrayType == events.ArrayTypeUint8
+//@   ensures forall k int :: 0 <= k && k < len(value) ==> rvUint[rvElem(uint64(dst.ptr), k)] == rv.ZExt(rvBits(rvElemTyp(uint64(dst.typ_))), uint64(value[1*k]))
+//@   loop 0 modifies rvUint
+//@   loop 0 invariant 0 <= i && i <= len(value)
+//@   loop 0 invariant forall k int :: 0 <= k && k < i ==> rvUint[rvElem(uint64(dst.ptr), k)] == rv.ZExt(rvBits(rvElemTyp(uint64(dst.typ_))), uint64(value[1*k]))
+//@   loop 0 decreases len(value) - i
+
+//@ func (*uint16ArrayBuilder).BuildFromArray
+//@   requires len(value) <= 0x1000000000 && rvLen[uint64(dst.ptr)] >= len(value) >> 1
+//@   modifies rvUint, alloc
+//@   may_panic
+//@   ensures arrayType == events.ArrayTypeUint16
+//@   ensures forall k int :: 0 <= k && k < len(value) >> 1 ==> rvUint[rvElem(uint64(dst.ptr), k)] == rv.ZExt(rvBits(rvElemTyp(uint64(dst.typ_))), uint64(value[2*k]) | uint64(value[2*k+1]) << 8)
+//@   loop 0 modifies rvUint
+//@   loop 0 invariant 0 <= i && i <= elemCount && elemCount == len(value) >> 1
+//@   loop 0 invariant forall k int :: 0 <= k && k < i ==> rvUint[rvElem(uint64(dst.ptr), k)] == rv.ZExt(rvBits(rvElemTyp(uint64(dst.typ_))), uint64(value[2*k]) | uint64(value[2*k+1]) << 8)
+//@   loop 0 decreases elemCount - i
+
+//@ func (*uint32ArrayBuilder).BuildFromArray
+//@   requires len(value) <= 0x1000000000 && rvLen[uint64(dst.ptr)] >= len(value) >> 2
+//@   modifies rvUint, alloc
+//@   may_panic
+//@   ensures arrayType == events.ArrayTypeUint32
+//@   ensures forall k int :: 0 <= k && k < len(value) >> 2 ==> rvUint[rvElem(uint64(dst.ptr), k)] == rv.ZExt(rvBits(rvElemTyp(uint64(dst.typ_))), uint64(value[4*k]) | uint64(value[4*k+1]) << 8 | uint64(value[4*k+2]) << 16 | uint64(value[4*k+3]) << 24)
+//@   loop 0 modifies rvUint
+//@   loop 0 invariant 0 <= i && i <= elemCount && elemCount == len(value) >> 2
+//@   loop 0 invariant forall k int :: 0 <= k && k < i ==> rvUint[rvElem(uint64(dst.ptr), k)] == rv.ZExt(rvBits(rvElemTyp(uint64(dst.typ_))), uint64(value[4*k]) | uint64(value[4*k+1]) << 8 | uint64(value[4*k+2]) << 16 | uint64(value[4*k+3]) << 24)
+//@   loop 0 decreases elemCount - i
+
+//@ func (*uint64ArrayBuilder).BuildFromArray
+//@   requires len(value) <= 0x1000000000 && rvLen[uint64(dst.ptr)] >= len(value) >> 3
+//@   modifies rvUint, alloc
+//@   may_panic
+//@   ensures arrayType == events.ArrayTypeUint64
+//@   ensures forall k int :: 0 <= k && k < len(value) >> 3 ==> rvUint[rvElem(uint64(dst.ptr), k)] == rv.ZExt(rvBits(rvElemTyp(uint64(dst.typ_))), uint64(value[8*k]) | uint64(value[8*k+1]) << 8 | uint64(value[8*k+2]) << 16 | uint64(value[8*k+3]) << 24 | uint64(value[8*k+4]) << 32 | uint64(value[8*k+5]) << 40 | uint64(value[8*k+6]) << 48 | uint64(value[8*k+7]) << 56)
+//@   loop 0 modifies rvUint
+//@   loop 0 invariant 0 <= i && i <= elemCount && elemCount == len(value) >> 3
+//@   loop 0 invariant forall k int :: 0 <= k && k < i ==> rvUint[rvElem(uint64(dst.ptr), k)] == rv.ZExt(rvBits(rvElemTyp(uint64(dst.typ_))), uint64(value[8*k]) | uint64(value[8*k+1]) << 8 | uint64(value[8*k+2]) << 16 | uint64(value[8*k+3]) << 24 | uint64(value[8*k+4]) << 32 | uint64(value[8*k+5]) << 40 | uint64(value[8*k+6]) << 48 | uint64(value[8*k+7]) << 56)
+//@   loop 0 decreases elemCount - i
+
+//@ func (*int8ArrayBuilder).BuildFromArray
+//@   requires len(value) <= 0x1000000000 && rvLen[uint64(dst.ptr)] >= len(value)
+//@   modifies rvInt, alloc
+//@   may_panic
+//@   ensures arrayType == events.ArrayTypeInt8
+//@   ensures forall k int :: 0 <= k && k < len(value) ==> rvInt[rvElem(uint64(dst.ptr), k)] == rv.SExt(rvBits(rvElemTyp(uint64(dst.typ_))), int64(int8(uint64(value[1*k]))))
+//@   loop 0 modifies rvInt
+//@   loop 0 invariant 0 <= i && i <= elemCount && elemCount == len(value)
+//@   loop 0 invariant forall k int :: 0 <= k && k < i ==> rvInt[rvElem(uint64(dst.ptr), k)] == rv.SExt(rvBits(rvElemTyp(uint64(dst.typ_))), int64(int8(uint64(value[1*k]))))
+//@   loop 0 decreases elemCount - i
+
+//@ func (*int16ArrayBuilder).BuildFromArray
+//@   requires len(value) <= 0x1000000000 && rvLen[uint64(dst.ptr)] >= len(value) >> 1
+//@   modifies rvInt, alloc
+//@   may_panic
+//@   ensures arrayType == events.ArrayTypeInt16
+//@   ensures forall k int :: 0 <= k && k < len(value) >> 1 ==> rvInt[rvElem(uint64(dst.ptr), k)] == rv.SExt(rvBits(rvElemTyp(uint64(dst.typ_))), int64(int16(uint64(value[2*k]) | uint64(value[2*k+1]) << 8)))
+//@   loop 0 modifies rvInt
+//@   loop 0 invariant 0 <= i && i <= elemCount && elemCount == len(value) >> 1
+//@   loop 0 invariant forall k int :: 0 <= k && k < i ==> rvInt[rvElem(uint64(dst.ptr), k)] == rv.SExt(rvBits(rvElemTyp(uint64(dst.typ_))), int64(int16(uint64(value[2*k]) | uint64(value[2*k+1]) << 8)))
+//@   loop 0 decreases elemCount - i
+
+//@ func (*int32ArrayBuilder).BuildFromArray
+//@   requires len(value) <= 0x1000000000 && rvLen[uint64(dst.ptr)] >= len(value) >> 2
+//@   modifies rvInt, alloc
+//@   may_panic
+//@   ensures arrayType == events.ArrayTypeInt32
+//@   ensures forall k int :: 0 <= k && k < len(value) >> 2 ==> rvInt[rvElem(uint64(dst.ptr), k)] == rv.SExt(rvBits(rvElemTyp(uint64(dst.typ_))), int64(int32(uint64(value[4*k]) | uint64(value[4*k+1]) << 8 | uint64(value[4*k+2]) << 16 | uint64(value[4*k+3]) << 24)))
+//@   loop 0 modifies rvInt
+//@   loop 0 invariant 0 <= i && i <= elemCount && elemCount == len(value) >> 2
+//@   loop 0 invariant forall k int :: 0 <= k && k < i ==> rvInt[rvElem(uint64(dst.ptr), k)] == rv.SExt(rvBits(rvElemTyp(uint64(dst.typ_))), int64(int32(uint64(value[4*k]) | uint64(value[4*k+1]) << 8 | uint64(value[4*k+2]) << 16 | uint64(value[4*k+3]) << 24)))
+//@   loop 0 decreases elemCount - i
+
+//@ func (*int64ArrayBuilder).BuildFromArray
+//@   requires len(value) <= 0x1000000000 && rvLen[uint64(dst.ptr)] >= len(value) >> 3
+//@   modifies rvInt, alloc
+//@   may_panic
+//@   ensures arrayType == events.ArrayTypeInt64
+//@   ensures forall k int :: 0 <= k && k < len(value) >> 3 ==> rvInt[rvElem(uint64(dst.ptr), k)] == rv.SExt(rvBits(rvElemTyp(uint64(dst.typ_))), int64(uint64(value[8*k]) | uint64(value[8*k+1]) << 8 | uint64(value[8*k+2]) << 16 | uint64(value[8*k+3]) << 24 | uint64(value[8*k+4]) << 32 | uint64(value[8*k+5]) << 40 | uint64(value[8*k+6]) << 48 | uint64(value[8*k+7]) << 56))
+//@   loop 0 modifies rvInt
+//@   loop 0 invariant 0 <= i && i <= elemCount && elemCount == len(value) >> 3
+//@   loop 0 invariant forall k int :: 0 <= k && k < i ==> rvInt[rvElem(uint64(dst.ptr), k)] == rv.SExt(rvBits(rvElemTyp(uint64(dst.typ_))), int64(uint64(value[8*k]) | uint64(value[8*k+1]) << 8 | uint64(value[8*k+2]) << 16 | uint64(value[8*k+3]) << 24 | uint64(value[8*k+4]) << 32 | uint64(value[8*k+5]) << 40 | uint64(value[8*k+6]) << 48 | uint64(value[8*k+7]) << 56))
+//@   loop 0 decreases elemCount - i
+
+//@ func (*float32ArrayBuilder).BuildFromArray
+//@   requires len(value) <= 0x1000000000 && rvLen[uint64(dst.ptr)] >= len(value) >> 2
+//@   modifies rvFloat, alloc
+//@   may_panic
+//@   ensures arrayType == events.ArrayTypeFloat32
+//@   ensures forall k int :: 0 <= k && k < len(value) >> 2 ==> !isNaN(float64(float32frombits(uint32(uint64(value[4*k]) | uint64(value[4*k+1]) << 8 | uint64(value[4*k+2]) << 16 | uint64(value[4*k+3]) << 24)))) ==> rvFloat[rvElem(uint64(dst.ptr), k)] == bits(rv.FRound(rvBits(rvElemTyp(uint64(dst.typ_))), float64(float32frombits(uint32(uint64(value[4*k]) | uint64(value[4*k+1]) << 8 | uint64(value[4*k+2]) << 16 | uint64(value[4*k+3]) << 24)))))
+//@   loop 0 modifies rvFloat
+//@   loop 0 invariant 0 <= i && i <= elemCount && elemCount == len(value) >> 2
+//@   loop 0 invariant forall k int :: 0 <= k && k < i ==> !isNaN(float64(float32frombits(uint32(uint64(value[4*k]) | uint64(value[4*k+1]) << 8 | uint64(value[4*k+2]) << 16 | uint64(value[4*k+3]) << 24)))) ==> rvFloat[rvElem(uint64(dst.ptr), k)] == bits(rv.FRound(rvBits(rvElemTyp(uint64(dst.typ_))), float64(float32frombits(uint32(uint64(value[4*k]) | uint64(value[4*k+1]) << 8 | uint64(value[4*k+2]) << 16 | uint64(value[4*k+3]) << 24)))))
+//@   loop 0 decreases elemCount - i
+
+//@ func (*float64ArrayBuilder).BuildFromArray
+//@   requires len(value) <= 0x1000000000 && rvLen[uint64(dst.ptr)] >= len(value) >> 3
+//@   modifies rvFloat, alloc
+//@   may_panic
+//@   ensures arrayType == events.ArrayTypeFloat64
+//@   ensures forall k int :: 0 <= k && k < len(value) >> 3 ==> !isNaN(float64frombits(uint64(value[8*k]) | uint64(value[8*k+1]) << 8 | uint64(value[8*k+2]) << 16 | uint64(value[8*k+3]) << 24 | uint64(value[8*k+4]) << 32 | uint64(value[8*k+5]) << 40 | uint64(value[8*k+6]) << 48 | uint64(value[8*k+7]) << 56)) && rvBits(rvElemTyp(uint64(dst.typ_))) == 64 ==> rvFloat[rvElem(uint64(dst.ptr), k)] == uint64(value[8*k]) | uint64(value[8*k+1]) << 8 | uint64(value[8*k+2]) << 16 | uint64(value[8*k+3]) << 24 | uint64(value[8*k+4]) << 32 | uint64(value[8*k+5]) << 40 | uint64(value[8*k+6]) << 48 | uint64(value[8*k+7]) << 56
+//@   loop 0 modifies rvFloat
+//@   loop 0 invariant 0 <= i && i <= elemCount && elemCount == len(value) >> 3
+//@   loop 0 invariant forall k int :: 0 <= k && k < i ==> !isNaN(float64frombits(uint64(value[8*k]) | uint64(value[8*k+1]) << 8 | uint64(value[8*k+2]) << 16 | uint64(value[8*k+3]) << 24 | uint64(value[8*k+4]) << 32 | uint64(value[8*k+5]) << 40 | uint64(value[8*k+6]) << 48 | uint64(value[8*k+7]) << 56)) && rvBits(rvElemTyp(uint64(dst.typ_))) == 64 ==> rvFloat[rvElem(uint64(dst.ptr), k)] == uint64(value[8*k]) | uint64(value[8*k+1]) << 8 | uint64(value[8*k+2]) << 16 | uint64(value[8*k+3]) << 24 | uint64(value[8*k+4]) << 32 | uint64(value[8*k+5]) << 40 | uint64(value[8*k+6]) << 48 | uint64(value[8*k+7]) << 56
+//@   loop 0 decreases elemCount - i
+
+// ---- END GENERATED ----
